@@ -23,7 +23,13 @@ From Coq Require Import ZArith List Bool Arith Lia.
 From DV Require Import Base.Sched.
 Import ListNotations.
 
-Inductive jkind := JSet | JFut.
+(* a future carries its deferred-policy flag (std::launch::deferred = true, dispenso::kNotDeferred = false): FutureImplBase::allowInline_ *)
+Inductive jkind := JSet | JFut (deferred : bool).
+(* FutureImplBase::wait() -- the UNTIMED wait behind Future::wait() / get() -- is waitCommon(true): it claims and runs a not-started
+   functor whatever the policy says; only waitFor / waitUntil consult allowInline_ (waitCommon(allowInline_)).  The theorems
+   below depend on this rule: with [untimed_wait_inline d := d] a pool whose workers all wait for still-queued kNotDeferred
+   futures of their own is a reachable stuck state. *)
+Definition untimed_wait_inline (deferred : bool) : bool := true.
 Inductive op :=
 | OWork
 | OSpawn (j : nat) (k : jkind) (body : list op)
@@ -129,19 +135,19 @@ Definition neqb (t u : nat) : bool := negb (Nat.eqb u t).
 Definition wait_join (s : state) (a : nat) (x : act) (r : list op) (below : list act) (gj : nat) : state :=
   match j_kind (join_of s gj) with
   | JSet => with_stack s a (set_top x r (MWaitSet gj) :: below)
-  | JFut =>
+  | JFut d =>
       match fut_state s gj with
       | TDone => with_stack s a (set_top x r MRun :: below)
       | TActive => with_stack s a (set_top x r (MWaitFut gj) :: below)               (* status_.wait(kReady): futex *)
       | TQueued =>                                                                  (* run(kNotStarted): the waiter runs the functor *)
           let t := j_ftask (join_of s gj) in
-          if existsb (Nat.eqb t) (cq s ++ steal s)
+          if untimed_wait_inline d && existsb (Nat.eqb t) (cq s ++ steal s)
           then start_task (with_queues s (filter (neqb t) (cq s)) (filter (neqb t) (steal s))) a (set_top x r MRun :: below) t
           else with_stack s a (set_top x r MRun :: below)
       end
   end.
 
-Definition is_set (k : jkind) : bool := match k with JSet => true | JFut => false end.
+Definition is_set (k : jkind) : bool := match k with JSet => true | JFut _ => false end.
 
 Definition spawn (s : state) (a : nat) (x : act) (r : list op) (below : list act) (j : nat) (k : jkind) (body : list op) (c : nat) : state :=
   let t := length (tasks s) in
